@@ -50,13 +50,16 @@ Progs == <<
 Parts == [p |-> <<Text(<<"{">>), Emit(Id("d")), Text(<<"}">>)>>]
 
 \* ---- layouts
-SepAlts == {"sp", "tab", "nl", "crlf", "sp2", "cmt"}
-GapAlts == {"none", "sp", "tab", "nl", "crlf", "cmt"}     \* white space inserted between two adjacent tokens
+\* cmt2: two line comments in a row (the second one on its own line); cmt3: an empty comment, CR LF ended, then an indented one
+SepAlts == {"sp", "tab", "nl", "crlf", "sp2", "cmt", "cmt2", "cmt3"}
+GapAlts == {"none", "sp", "tab", "nl", "crlf", "cmt", "cmt2"}     \* white space inserted between two adjacent tokens
 Punct == {"(", ")", "[", "]", ",", ":", "LBR", "RBR", "{", "}"}
 EdgeAlts == SepAlts \cup {"none"}                      \* next to a tag delimiter the separator may vanish
 JoinAlts == {"keep", "nl", "semi", "sp"}
 Sep(a) == CASE a = "sp" -> <<" ">> [] a = "tab" -> <<"TAB">> [] a = "nl" -> <<"NL">> [] a = "crlf" -> <<"CR", "NL">> [] a = "sp2" -> <<" ", " ">>
             [] a = "cmt" -> <<" ", "HASH", " ", "n", "o", "t", "e", "NL">> [] a = "none" -> <<>>
+            [] a = "cmt2" -> <<" ", "HASH", " ", "o", "n", "e", "NL", "HASH", "t", "w", "o", "NL">>
+            [] a = "cmt3" -> <<" ", "HASH", "CR", "NL", " ", " ", "HASH", " ", "x", " ", "=", " ", "1", "NL">>
 Join(a) == CASE a = "nl" -> <<"NL">> [] a = "semi" -> <<";", " ">> [] a = "sp" -> <<" ">>
 CommentTag == <<"<%#", " ", "c", " ", "%>">>
 
@@ -120,9 +123,11 @@ Res == Run(Progs[pi], WithHelpers(EmptyScope), Parts, "")
 RECURSIVE Strip(_)
 Strip(ts) == IF ts = <<>> THEN <<>> ELSE
              (IF Head(ts) \in {" ", "TAB", "NL", "CR", ";", "%>", "<%"} THEN <<>> ELSE <<Head(ts)>>) \o Strip(Tail(ts))
-RECURSIVE DropComments(_)
+\* a line comment is everything from # to the end of its line (the programs contain no # of their own)
+RECURSIVE DropComments(_), ToEol(_)
+ToEol(ts) == IF ts = <<>> \/ Head(ts) \in {"NL", "CR"} THEN ts ELSE ToEol(Tail(ts))
 DropComments(ts) == IF ts = <<>> THEN <<>>
-                    ELSE IF Head(ts) = "HASH" /\ Len(ts) >= 6 /\ SubSeq(ts, 1, 6) = <<"HASH", " ", "n", "o", "t", "e">> THEN DropComments(SubSeq(ts, 7, Len(ts)))
+                    ELSE IF Head(ts) = "HASH" THEN DropComments(ToEol(ts))
                     ELSE IF Head(ts) = "<%#" THEN DropComments(SubSeq(ts, 5, Len(ts)))
                     ELSE <<Head(ts)>> \o DropComments(Tail(ts))
 SameTokens == done => Strip(DropComments(Apply(Toks, KS, lay, 1))) = Strip(Toks)
